@@ -34,6 +34,7 @@ MCCmds ==
     \cup {<<W(op), K(k)>> : op \in {"GET", "GETDEL", "TYPE", "TTL", "PTTL", "EXPIRETIME", "PEXPIRETIME",
                                      "PERSIST", "INCR", "DECR", "STRLEN", "GETEX", "DEL"}, k \in MCKeys}
     \cup {<<W("MGET"), K("k1"), K("k2"), K("k1")>>, <<W("DEL"), K("k1"), K("k2"), K("k1")>>}
+    \cup {<<W("TOUCH"), K("k1"), K("k2"), K("k1")>>, <<W("TOUCH")>>}
     \cup {<<W("GETEX"), K("k1"), W("PERSIST")>>, <<W("GETEX"), K("k1"), W("PX"), N(700)>>,
           <<W("GETEX"), K("k1"), W("EX")>>, <<W("GETEX"), K("k1"), W("ZZ"), N(1)>>}
     \cup {<<W(op), K(k), N(1)>> : op \in {"EXPIRE"}, k \in MCKeys}
